@@ -27,7 +27,7 @@ class Ext:
     """
 
     def __init__(self, ret=None, pure=False, event=None, raises=(), ensures=(), havoc=(), requires=(),
-                 note="", model=None, fresh=True):
+                 note="", model=None, fresh=True, bind=None, log=None):
         self.ret = ret
         self.pure = pure
         self.event = event
@@ -38,6 +38,8 @@ class Ext:
         self.note = note
         self.model = model
         self.fresh = fresh
+        self.bind = bind  # name under which the (last) result is visible to clauses
+        self.log = log  # index of the argument recorded in the event log (default 0)
 
 
 class GhostFn:
@@ -98,6 +100,9 @@ class Contract:
         self.kind = kw.pop("kind", "function")
         self.hooks = dict(kw.pop("hooks", {}))
         self.notes = kw.pop("notes", "")
+        self.asserts = list(kw.pop("asserts", []))  # [dict(before=<source prefix>, clause=..., label=...)]
+        self.ghost_inputs = dict(kw.pop("ghost_inputs", {}))
+        self.native_env = kw.pop("native_env", None)
         if kw:
             raise TypeError("unknown contract fields: %s" % sorted(kw))
 
